@@ -320,3 +320,55 @@ m('fm-batch-loop-break', 'R10c', FM,
 		if numMissing == 0 {
 			break
 		}''')
+
+# ---- round 3 of seeded changes: new obligations ----
+m('put-gives-up-reader-on-reserve-failure', 'R14j', 'cache/disk/disk.go',
+  '''		err := c.lru.Reserve(size)
+		if err != nil {
+			c.mu.Unlock()
+			return err
+		}''',
+  '''		err := c.lru.Reserve(size)
+		if err != nil {
+			c.mu.Unlock()
+			r = nil
+			return err
+		}''')
+m('put-gives-up-reader-before-write', 'R14j', 'cache/disk/disk.go',
+  '''	blobFile = tf.Name()
+	removeTempfile = true
+''',
+  '''	blobFile = tf.Name()
+	removeTempfile = true
+	rr := r
+	r = nil
+	_ = rr
+''')
+m('writefile-limits-reader', 'R01c', 'cache/disk/disk.go',
+  '''	var err error
+	var sizeOnDisk int64
+
+	if kind == cache.CAS && c.storageMode != casblob.Identity {''',
+  '''	var err error
+	var sizeOnDisk int64
+
+	r = io.LimitReader(r, size)
+	if kind == cache.CAS && c.storageMode != casblob.Identity {''')
+m('http-url-grammar-on-cleaned-path', 'R15d', 'server/http.go',
+  '''	m := blobNameSHA256.FindStringSubmatch(url)''',
+  '''	m := blobNameSHA256.FindStringSubmatch(strings.ToLower(url))''')
+m('http-instance-keeps-slash', 'R15d', 'server/http.go',
+  '''	instance = strings.TrimSuffix(m[1], "/")''',
+  '''	instance = m[1]''')
+m('yaml-profile-none-before-port-form', 'R19g', 'config/config.go',
+  '''	if c.ProfileAddress == "" && yc.ProfilePort > 0 {
+		c.ProfileAddress = net.JoinHostPort(yc.ProfileHost, strconv.Itoa(yc.ProfilePort))
+	} else if c.ProfileAddress == "none" {
+		c.ProfileAddress = ""
+	}''',
+  '''	if c.ProfileAddress == "none" {
+		c.ProfileAddress = ""
+	}
+	if c.ProfileAddress == "" && yc.ProfilePort > 0 {
+		c.ProfileAddress = net.JoinHostPort(yc.ProfileHost, strconv.Itoa(yc.ProfilePort))
+	}''')
